@@ -379,6 +379,8 @@ def rule_stateless(rep: Report, prefix: str) -> None:
             dr.rule_shared_table(rep, f"{prefix}.shared")
         rule_memo(rep, f"{prefix}.memo")
         rule_iterators(rep, f"{prefix}.iter")
+        from . import totality_rules as tr_
+        tr_.rule_oneshot_flow(rep, f"{prefix}.iter")
     finally:
         _SCOPE[0] = None
 
